@@ -79,6 +79,7 @@ type CheckOpts struct {
 	Keep       bool
 	Verbose    bool
 	CheckerCmd string
+	Deps       bool // audit mode: also verify every in-repo callee whose contract the proofs apply (not used by registered checks)
 }
 
 type evidence struct {
@@ -142,19 +143,56 @@ func (P *Program) Check(opt CheckOpts) int {
 	for _, k := range keys {
 		fns = append(fns, P.funcs[k])
 	}
-	results := make([]*FuncResult, len(fns))
-	var wg sync.WaitGroup
-	sem := make(chan struct{}, 16)
-	for i, fn := range fns {
-		wg.Add(1)
-		go func(i int, fn *ssa.Function) {
-			defer wg.Done()
-			sem <- struct{}{}
-			defer func() { <-sem }()
-			results[i] = P.VerifyFunc(fn)
-		}(i, fn)
+	// The proof of a function rests on the contracts of the in-repo callees it applies: those
+	// callees are verified too (transitively), whatever properties their contracts name, so that a
+	// change inside one of them that breaks the contract the property's proof used is noticed.
+	var results []*FuncResult
+	isDep := map[*FuncResult]bool{}
+	done := map[string]bool{}
+	for _, k := range keys {
+		done[k] = true
 	}
-	wg.Wait()
+	batch := fns
+	depRound := false
+	for len(batch) > 0 {
+		rs := make([]*FuncResult, len(batch))
+		var wg sync.WaitGroup
+		sem := make(chan struct{}, 16)
+		for i, fn := range batch {
+			wg.Add(1)
+			go func(i int, fn *ssa.Function) {
+				defer wg.Done()
+				sem <- struct{}{}
+				defer func() { <-sem }()
+				rs[i] = P.VerifyFunc(fn)
+			}(i, fn)
+		}
+		wg.Wait()
+		var next []string
+		for _, r := range rs {
+			if depRound {
+				isDep[r] = true
+			}
+			results = append(results, r)
+			for _, u := range r.Uses {
+				if !done[u] {
+					done[u] = true
+					next = append(next, u)
+				}
+			}
+		}
+		sort.Strings(next)
+		batch = nil
+		if !opt.Deps {
+			next = nil
+		}
+		for _, k := range next {
+			if c := P.Contracts[k]; c != nil && !c.External && !c.Trusted && P.funcs[k] != nil {
+				batch = append(batch, P.funcs[k])
+			}
+		}
+		depRound = true
+	}
 	work := filepath.Join(opt.VerifDir, "work", prop+"_"+opt.Tier)
 	os.RemoveAll(work)
 	want := func(o *Obligation) bool { return true }
@@ -162,7 +200,7 @@ func (P *Program) Check(opt CheckOpts) int {
 	sel := map[*Obligation]bool{}
 	for _, r := range results {
 		for _, o := range r.Obligations {
-			if !o.GroupHead && hasStr(oblProps(o, r.Contract), prop) {
+			if !o.GroupHead && (isDep[r] || hasStr(oblProps(o, r.Contract), prop)) {
 				sel[o] = true
 			}
 		}
@@ -183,8 +221,14 @@ func (P *Program) Check(opt CheckOpts) int {
 	os.RemoveAll(replayDir)
 	covers := 0
 	seenKnown := map[string]bool{}
+	ndeps := 0
 	for _, r := range results {
-		funcsUnder = append(funcsUnder, r.Func)
+		if isDep[r] {
+			ndeps++
+			funcsUnder = append(funcsUnder, r.Func+" (dependency: its contract is used by the proof)")
+		} else {
+			funcsUnder = append(funcsUnder, r.Func)
+		}
 		for _, a := range r.Assumed {
 			assumed[a] = true
 		}
@@ -292,9 +336,17 @@ func (P *Program) Check(opt CheckOpts) int {
 	evDir := filepath.Join(opt.VerifDir, "evidence")
 	os.MkdirAll(evDir, 0o755)
 	data, _ := json.MarshalIndent(ev, "", " ")
-	os.WriteFile(filepath.Join(evDir, prop+".json"), append(data, '\n'), 0o644)
-	fmt.Printf("property %s: %d functions under contract, %d/%d obligations discharged (%d cover), %d known findings, %d violations, %.1fs\n",
-		prop, len(results), discharged, total, covers, len(knownLines), len(violations), time.Since(start).Seconds())
+	if !opt.Deps {
+		os.WriteFile(filepath.Join(evDir, prop+".json"), append(data, '\n'), 0o644)
+	} else {
+		for _, r := range results {
+			if isDep[r] {
+				fmt.Printf("DEP %s\n", r.Func)
+			}
+		}
+	}
+	fmt.Printf("property %s: %d functions under contract (%d as dependencies), %d/%d obligations discharged (%d cover), %d known findings, %d violations, %.1fs\n",
+		prop, len(results), ndeps, discharged, total, covers, len(knownLines), len(violations), time.Since(start).Seconds())
 	if total == 0 {
 		fmt.Printf("VIOLATION property=%s replay=%s no-failing-input-found\n", prop, "none: zero obligations generated (vacuous check)")
 		return 1
